@@ -819,3 +819,50 @@ def W11_fitter_uses_list(rep, flow: Flow):
             rep.ok("W11", 1, nontrivial=pyfacts.norm_stmt(c), sample=f"{pyfacts.norm_stmt(c)} with {ast.unparse(arg)} = {ast.unparse(src)}")
         else:
             rep.finding("W11", f"{A_FITTER}:parser-list", f"{pyfacts.where(f, c)}: the counts are parsed with qubit list `{ast.unparse(arg) if arg is not None else 'absent (None)'}`{'' if src is None or src is arg else ' = ' + ast.unparse(src)}; it must be the list the builder stored in the readout record (fields {sorted(rec_fields)}): otherwise the full-register outcomes are read as if they were the subset's [{pyfacts.norm_stmt(c)}]")
+
+
+# =============================================================================================
+def H1_histogram_accumulates(rep, flow: Flow):
+    """marginalised outcomes collide: the counts parser keeps one entry per count key, so after selecting a subset of
+    qubits several entries can carry the same outcome integer.  Any outcome-indexed histogram must therefore ADD the
+    counts of equal outcomes."""
+    rep.rule("H1", "an outcome-indexed histogram adds up the counts of equal outcomes: no plain store `h[outcome] = count`, and no numpy fancy-index `h[outcomes] += counts` (which does not accumulate repeated indices); scalar `+=` in a loop, np.add.at and np.bincount are the accumulating forms", floor=0)
+    prog = flow.prog
+    m = prog.modules.get(TOMO)
+    if m is None:
+        raise AnalysisError("module tomography vanished")
+    # precondition: duplicates are possible (entries appended per key in the subset branch)
+    parser = prog.func(A_COUNTS_PARSER)
+    merges = any(isinstance(n, ast.Call) and ast.unparse(n.func).endswith(("marginal_counts", "Counter", "defaultdict")) for n in ast.walk(parser.node))
+    appends = any(isinstance(n, ast.Call) and isinstance(n.func, ast.Attribute) and n.func.attr == "append" for n in ast.walk(parser.node))
+    if merges or not appends:
+        rep.note("H1: the counts parser merges equal outcomes itself; histogram stores cannot collide")
+        return
+    n_sites = 0
+    for f in m.all_funcs:
+        # names bound to arrays of outcome integers
+        outcome_arrays = set()
+        for n in ast.walk(f.node):
+            if isinstance(n, ast.Assign) and len(n.targets) == 1 and isinstance(n.targets[0], ast.Name):
+                if any(isinstance(x, ast.Attribute) and x.attr == "bitstring" for x in ast.walk(n.value)) and \
+                        any(isinstance(x, (ast.ListComp, ast.GeneratorExp)) for x in ast.walk(n.value)):
+                    outcome_arrays.add(n.targets[0].id)
+        for n in ast.walk(f.node):
+            if not isinstance(n, (ast.Assign, ast.AugAssign)):
+                continue
+            for t in (n.targets if isinstance(n, ast.Assign) else [n.target]):
+                if not isinstance(t, ast.Subscript):
+                    continue
+                idx = t.slice
+                scalar_outcome = isinstance(idx, ast.Attribute) and idx.attr == "bitstring"
+                array_outcome = isinstance(idx, ast.Name) and idx.id in outcome_arrays
+                if not (scalar_outcome or array_outcome):
+                    continue
+                n_sites += 1
+                if isinstance(n, ast.Assign):
+                    rep.finding("H1", f"{f.fq}:{pyfacts.norm_stmt(n)}", f"{pyfacts.where(f, n)}: `{pyfacts.norm_stmt(n)}` overwrites the histogram entry of an outcome: when a subset of the qubits is measured several count keys marginalise to the same outcome and all but the last are lost")
+                elif array_outcome:
+                    rep.finding("H1", f"{f.fq}:{pyfacts.norm_stmt(n)}", f"{pyfacts.where(f, n)}: `{pyfacts.norm_stmt(n)}` is a numpy fancy-index in-place add: repeated indices are NOT accumulated (use np.add.at / np.bincount); marginalised outcomes collide when a subset of the qubits is measured")
+                else:
+                    rep.ok("H1", 1, nontrivial=pyfacts.norm_stmt(n), sample=pyfacts.norm_stmt(n))
+    rep.analysed["H1 outcome-indexed stores"] = n_sites
